@@ -253,7 +253,8 @@ fn find_word_start<'a>(
 ) -> Option<<CharIndices<'a> as Iterator>::Item> {
     char_indices
         .as_str()
-        .starts_with("'n'")
+        .get(..3)
+        .map_or(false, |t| t.eq_ignore_ascii_case("'n'"))
         .then(|| char_indices.next())
         .unwrap_or_else(|| char_indices.find(|&(_, c)| !is_ignorable_whitespace(c)))
 }
@@ -555,7 +556,11 @@ impl<'a> Lexer<'a> {
         #[cfg(feature = "verif")]
         crate::verif::pre("lexer.scan_for_text", self.buf.get(start..).is_some());
         let buf_text = self.substr(start..);
-        buf_text.strip_prefix(text).map(|_| LexResult {
+        // keywords are recognised in any case: `'N'`, `'S`, `'RE` too
+        let matches = buf_text
+            .get(..text.len())
+            .map_or(false, |t| t.eq_ignore_ascii_case(text));
+        matches.then(|| LexResult {
             token: self.make_token_from(start, text.len(), token_type),
             end: start + text.len(),
             newlines: 0,
